@@ -32,6 +32,7 @@ fn kinds() -> Vec<(&'static str, XVal, Option<XFormula>, Option<u32>, Data)> {
         ("shared rich string", XVal::SharedStr(1), None, None, Data::String("two".into())),
         ("shared string escaped", XVal::SharedStr(2), None, None, Data::String("three & <3>".into())),
         ("inline string", XVal::InlineStr(XText::plain("inl")), None, None, Data::String("inl".into())),
+        ("inline string with phonetic run", XVal::InlineStr(XText { runs: vec![XRun::T("kana".into()), XRun::RPh("\u{30ab}\u{30ca}".into()), XRun::PhoneticPr], enc: TextEnc::Entities }), None, None, Data::String("kana".into())),
         ("inline rich string", XVal::InlineStr(XText { runs: vec![XRun::R("a".into()), XRun::R("b".into())], enc: TextEnc::Entities }), None, None, Data::String("ab".into())),
         ("formula string", XVal::Str("res".into(), TextEnc::Entities), Some(XFormula::Plain("\"r\"&\"es\"".into())), None, Data::String("res".into())),
         // a formula whose cached string result is empty (=IF(..,"",..)): <v></v> is present, the value is the empty string
@@ -193,7 +194,7 @@ fn position_sets(k: usize) -> Vec<Vec<(u32, u32)>> {
 
 pub fn check(rep: &Report) {
     let t = crate::thorough(&rep.tier);
-    rep.rule("logical sheet = anchor {A1, AB6, ZZ100, XFA1048573} x every set of <= k cells in a 3x4 window (quick: every third two-cell set) x 28 cell kinds (+ optional second sheet); encoding = 19 variation points (prefix, implicit row/cell r, dimension absent/exact/too small/too large, target spelling, part-name case, stored/deflated, t=n, empty row elements, member order, relationship ids not in sheet order); per position set all choice vectors with <= d deviations from (number cells, default encoding), plus the full encoding product on single-cell sheets; non-trivial = at least one non-default choice; distinct = by file bytes");
+    rep.rule("logical sheet = anchor {A1, AB6, ZZ100, XFA1048573} x every set of <= k cells in a 3x4 window (quick: every third two-cell set) x 29 cell kinds (+ optional second sheet); encoding = 25 variation points (prefix, implicit row/cell r, dimension absent/exact/too small/too large/stale, target spelling, part-name and folder case, stored/deflated, t=n, empty row elements, member order, relationship ids not in sheet order, applyNumberFormat, .rels attribute order, rows never carrying r, text split by CDATA / comments, XML comments, optional neighbours of sheetData, boolean spelling, sst count, numFmt attribute order, General xf without numFmtId, indentation, 1904); per position set all choice vectors with <= d deviations from (number cells, default encoding), plus the full encoding product on single-cell sheets; non-trivial = at least one non-default choice; distinct = by file bytes");
     rep.assume("generator emits only ECMA-376-legal variations listed in gen/xlsx.rs; r:-prefixed relationship ids; implicit r only where the cursor rule positions the element correctly");
     let kmax = if t { 3 } else { 2 };
     let dev = if t { 3 } else { 2 };
